@@ -1050,6 +1050,7 @@ func generate(rng *lib.Rng, tier string) []job {
 	jobs = append(jobs, genHostileDirs(b, thorough)...)
 	jobs = append(jobs, genHostileCerts(b)...)
 	jobs = append(jobs, genHostileCAEntries(b)...)
+	jobs = append(jobs, genHostileParameters(b)...)
 	jobs = append(jobs, genNullMembers(rng.Fork(), b, thorough)...)
 	jobs = append(jobs, genDirect()...)
 	jobs = append(jobs, genRecord()...)
